@@ -165,6 +165,115 @@ def split_state(text):
     return out
 
 
+_TOK = re.compile(r'\s*(<<|>>|:>|@@|\|->|\\in|[()\[\]{},]|"(?:[^"\\]|\\.)*"|-?\d+|[A-Za-z_][A-Za-z0-9_]*)')
+_IDENT = re.compile(r'^[A-Za-z_][A-Za-z0-9_]*$')
+
+
+class _Unparsed(Exception):
+    pass
+
+
+def compact_value(text):
+    """The executor prints functions as chains `(k1 :> v1) @@ (k2 :> v2) @@ ...`; SANY needs several times longer for
+    those than for the same value written as a record / tuple / explicit function (1 500 shopcart states: 71 s of a
+    94 s TLC run were parsing). This rewrites a printed value into the cheaper syntax -- records for string keys,
+    tuples for keys 1..n, ZFn(<<keys>>, <<values>>) otherwise -- and returns the text unchanged when it meets anything
+    it does not know. (The first state of every trace module is embedded in both forms and compared by TLC.)"""
+    toks, pos = [], 0
+    while pos < len(text):
+        m = _TOK.match(text, pos)
+        if not m:
+            if text[pos:].strip() == "":
+                break
+            return text
+        toks.append(m.group(1)); pos = m.end()
+    i = [0]
+
+    def peek():
+        return toks[i[0]] if i[0] < len(toks) else None
+
+    def take(t=None):
+        x = peek()
+        if x is None or (t is not None and x != t):
+            raise _Unparsed()
+        i[0] += 1
+        return x
+
+    def plist(close):
+        out = []
+        if peek() == close:
+            take(); return out
+        while True:
+            out.append(expr())
+            if peek() == ",":
+                take(); continue
+            take(close); return out
+
+    def unit():
+        t = take()
+        if t == "(":
+            e = expr(); take(")"); return e
+        if t == "<<":
+            return ("tup", plist(">>"))
+        if t == "{":
+            return ("set", plist("}"))
+        if t == "[":
+            if i[0] + 1 < len(toks) and toks[i[0] + 1] == "\\in":      # [x \in {} |-> x]: the empty function
+                x = take(); take("\\in"); take("{"); take("}"); take("|->"); take(x); take("]")
+                return ("tup", [])
+            fs = []
+            while True:
+                k = take(); take("|->"); fs.append((k, expr()))
+                if peek() == ",":
+                    take(); continue
+                take("]"); return ("rec", fs)
+        if t in (")", ">>", "}", "]", ",", ":>", "@@", "|->", "\\in"):
+            raise _Unparsed()
+        return ("atom", t)
+
+    def expr():
+        pairs, single = [], None
+        while True:
+            u = unit()
+            if peek() == ":>":
+                take(); pairs.append((u, unit()))
+            elif u[0] == "fn":
+                pairs += u[1]
+            elif single is None and not pairs and peek() != "@@":
+                single = u
+            else:
+                raise _Unparsed()
+            if peek() == "@@":
+                take(); continue
+            break
+        return single if single is not None else ("fn", pairs)
+
+    def show(e):
+        k = e[0]
+        if k == "atom":
+            return e[1]
+        if k == "tup":
+            return "<<" + ", ".join(show(x) for x in e[1]) + ">>"
+        if k == "set":
+            return "{" + ", ".join(show(x) for x in e[1]) + "}"
+        if k == "rec":
+            return "[" + ", ".join("%s |-> %s" % (f, show(v)) for f, v in e[1]) + "]"
+        keys = [x for x, _ in e[1]]
+        if keys and all(x[0] == "atom" and x[1].startswith('"') and _IDENT.match(x[1][1:-1]) for x in keys) and len({x[1] for x in keys}) == len(keys):
+            return "[" + ", ".join("%s |-> %s" % (x[1][1:-1], show(v)) for x, v in e[1]) + "]"
+        if keys and all(x[0] == "atom" and x[1].isdigit() for x in keys) and sorted(int(x[1]) for x in keys) == list(range(1, len(keys) + 1)):
+            return "<<" + ", ".join(show(v) for _, v in sorted(e[1], key=lambda kv: int(kv[0][1]))) + ">>"
+        return "ZFn(<<" + ", ".join(show(x) for x in keys) + ">>, <<" + ", ".join(show(v) for _, v in e[1]) + ">>)"
+
+    try:
+        e = expr()
+        if i[0] != len(toks):
+            return text
+        return show(e)
+    except (_Unparsed, IndexError):
+        return text
+
+
 def delta_trace_module(module, variables, runs, reset_extra):
     """<module>Trace for P-level judgement of recorded executions (same shape as tracegen's conform=False module:
     the recorded states are taken as they are, the history variables follow HStep, executions are concatenated
@@ -178,10 +287,12 @@ def delta_trace_module(module, variables, runs, reset_extra):
             if sorted(f) != sorted(variables):
                 raise V.Inconclusive("state record does not carry the spec's variables: %s vs %s" % (sorted(f), sorted(variables)))
             if prev is None:
-                recs.append('[k |-> "i", st |-> %s]' % st)
+                full = "[" + ", ".join("%s |-> %s" % (v, compact_value(f[v])) for v in variables) + "]"
+                # the very first state also as the executor printed it: TLC compares the two forms (TraceInit)
+                recs.append('[k |-> "i", st |-> %s%s]' % (full, (", orig |-> " + st) if not recs else ""))
             else:
                 ch = [v for v in variables if f[v] != prev[v]]
-                recs.append('[k |-> "s", st |-> %s]' % ("[" + ", ".join("%s |-> %s" % (v, f[v]) for v in ch) + "]" if ch else "<<>>"))
+                recs.append('[k |-> "s", st |-> %s]' % ("[" + ", ".join("%s |-> %s" % (v, compact_value(f[v])) for v in ch) + "]" if ch else "<<>>"))
             prev = f
     match = " /\\ ".join("%s = zst.%s" % (v, v) for v in variables)
     matchfull = " /\\ ".join("%s' = zst.%s" % (v, v) for v in variables)
@@ -192,11 +303,12 @@ VARIABLE l
 ZTrace == <<
 %(data)s
 >>
+ZFn(zks, zvs) == [zx \\in {zks[zi] : zi \\in 1..Len(zks)} |-> zvs[CHOOSE zi \\in 1..Len(zks) : zks[zi] = zx]]
 ZMatch(zst) == %(match)s
 ZMatchFullP(zst) == %(matchfull)s
 ZMatchDeltaP(zst) == %(matchd)s
 ZKind(zkind) == l < Len(ZTrace) /\\ ZTrace[l + 1].k = zkind /\\ l' = l + 1
-TraceInit == l = 1 /\\ HInit /\\ ZMatch(ZTrace[1].st)
+TraceInit == l = 1 /\\ HInit /\\ ZMatch(ZTrace[1].st) /\\ ZTrace[1].st = ZTrace[1].orig
 TraceStep == ZKind("s") /\\ ZMatchDeltaP(ZTrace[l + 1].st) /\\ HStep
 TraceReset == ZKind("i") /\\ ZMatchFullP(ZTrace[l + 1].st) %(rx)s /\\ (HInit)'
 TraceNext == TraceStep \\/ TraceReset
